@@ -113,6 +113,18 @@ CHECKS.update({
             'checked for the final STOP (+NOTIFY) with nothing after it, setpoint period, height integral, commanded vectors, primitive '
             'durations, modelled position and go-to targets.',
             'Zero-length moves not generated; virtual time; packet layouts as checked by C08.'),
+    'C15': ('exploration', 'DESIGN.md 3/C15', 'rooms',
+            'lattice enumeration over the field of view + Hypothesis directions/rotations/pose triples; round-trip, algebraic (inverse, associativity, composition) and differential oracles (solver projection vs Pose/atan2), independent light-plane equation',
+            'All directions of a 1 deg (thorough 0.25 deg) lattice over the field of view and random ones are pushed through every conversion '
+            'pair; pose laws are checked on generated rotations incl. identity, half turns and 1e-9 angles; the solver\'s vectorised '
+            'projection is compared with the Pose-based projection incl. zero and beyond-pi rotation vectors.',
+            'Tolerances 1e-9 (double paths), 1e-5 (float32 outputs).'),
+    'C16': ('exploration', 'DESIGN.md 3/C16', 'rooms',
+            'Hypothesis-generated constellations, rigid misalignments (<= 30 deg, <= 3 m), reference point layouts and scale factors; validity predicates (proper rotation, rigidity, sample placement) and metamorphic scaling oracle with independently synthesised rays',
+            'Alignment is checked for rigidity on every case and for 1 mm exactness on noise-free layouts over the whole stated envelope; '
+            'scaling is checked by shrinking/enlarging a true system and requiring the true system back, with rotations bit-identical and '
+            'inputs deep-compared.',
+            'Rays synthesised with plain rotation-matrix algebra; noisy layouts only check rigidity.'),
 })
 
 ALL = ['C%02d' % i for i in range(1, 21)]
